@@ -1,1 +1,74 @@
 //! Verification hook: public wrapper of the validator address book (gossip::ValidatorAddrsWatch).
+//!
+//! `ValidatorAddrsWatch` and `ValidatorAddrs` are `pub(crate)`; this newtype forwards to them
+//! one-to-one and adds no behaviour. The only extra is a private subscriber (created together with
+//! the watch) so that a harness can observe whether an operation notified the subscribers.
+use std::sync::Arc;
+
+use zksync_concurrency::{sync, time};
+use zksync_consensus_roles::validator;
+
+use crate::gossip::{ValidatorAddrs, VerifValidatorAddrsWatch as ValidatorAddrsWatch};
+
+/// Signed announcement, as stored in the address book.
+pub type SignedAddr = Arc<validator::Signed<validator::NetAddress>>;
+
+/// Public wrapper of `gossip::ValidatorAddrsWatch`.
+pub struct AddrBook {
+    inner: ValidatorAddrsWatch,
+    sub: sync::watch::Receiver<ValidatorAddrs>,
+}
+
+impl Default for AddrBook {
+    fn default() -> Self {
+        Self::new()
+    }
+}
+
+impl AddrBook {
+    /// `ValidatorAddrsWatch::default()`.
+    pub fn new() -> Self {
+        let inner = ValidatorAddrsWatch::default();
+        let mut sub = inner.subscribe();
+        // The initial value counts as seen.
+        sub.borrow_and_update();
+        Self { inner, sub }
+    }
+
+    /// `ValidatorAddrsWatch::update`.
+    pub async fn update(
+        &self,
+        validators: &validator::Schedule,
+        data: &[SignedAddr],
+    ) -> anyhow::Result<()> {
+        self.inner.update(validators, data).await
+    }
+
+    /// `ValidatorAddrsWatch::announce`.
+    pub async fn announce(
+        &self,
+        key: &validator::SecretKey,
+        addr: std::net::SocketAddr,
+        timestamp: time::Utc,
+    ) {
+        self.inner.announce(key, addr, timestamp).await
+    }
+
+    /// `ValidatorAddrsWatch::current`.
+    pub fn current(&self) -> im::HashMap<validator::PublicKey, SignedAddr> {
+        self.inner.current()
+    }
+
+    /// The entry a subscriber (e.g. `consensus::Network::maintain_connection`) reads for `key`:
+    /// `ValidatorAddrs::get` on the subscribed value.
+    pub fn get(&self, key: &validator::PublicKey) -> Option<SignedAddr> {
+        self.inner.subscribe().borrow().get(key).cloned()
+    }
+
+    /// Whether the subscribers have been notified (`send_replace`) since the previous call.
+    pub fn take_notified(&mut self) -> bool {
+        let changed = self.sub.has_changed().unwrap_or(false);
+        self.sub.borrow_and_update();
+        changed
+    }
+}
